@@ -78,7 +78,7 @@ theorem ligBM_get {km : List (String × String)} {as : List NA} {j : Nat} {a : N
 theorem lig_attach {i : Input} {al : AList} (w : ALwf i al) {b m : String} {ab am : NA} (p : Pair al b m ab am)
     (hok : markOK i m = true) (hpl : ab.ctx = none) (j : Nat) (hnum : ab.number = some (j + 1)) (hnmg : b ∉ mgOf i al)
     (hlig : ligOK i b = true)
-    (hnonull : ∀ as, (b, as) ∈ al → ∀ a ∈ as, a.number = some (j + 1) → a.key ≠ "")
+    (hnonull : ∀ as, (b, as) ∈ al → ∀ a ∈ as, a.ctx = none → a.number = some (j + 1) → a.key ≠ "")
     (feat : String) (inc : String → Bool) (mf : NA → Bool) (hinc : inc b = true) (hmf : mf ab = true) :
     ∃ L ∈ ligLookups feat inc mf (glOf i al), (attachLookup (build i al) L b m (some j)).isSome = true := by
   have hcl := pair_classOf w p hok
@@ -93,7 +93,7 @@ theorem lig_attach {i : Input} {al : AList} (w : ALwf i al) {b m : String} {ab a
     have : a' ∈ as := by
       have := (mem_plainOf (mem_filter.mp ha').1).1
       rw [e] at this; exact (mem_filter.mp this).1
-    exact hnonull as has a' this hn'
+    exact hnonull as has a' this (mem_plainOf (mem_filter.mp ha').1).2 hn'
   have hcomp : (⟨ab, cnOf i al am.name⟩ : BAnchor) ∈ compOf (kmOf i al) (ligEvents (kmOf i al) (plainOf as')) (j + 1) :=
     mem_compOf_of hev hnum hcl hnn
   have hget := ligBM_get hev hnum
